@@ -518,7 +518,9 @@ PROPS = {
               # flushes and compactions install newer versions - one of them then FAILS (a
               # transient read fault); at the end exactly one version is linked and only its
               # tables are on disk (RainConc_Trace: VersionLeak / TablesNotExact)
-              dict(driver="sched", args=["--all", "--match", "flush_compact"], quick=1, thorough=6,
+              # ... and manual compactions interrupted by a memtable flush (early and LATE: after
+              # an output was finished) whose deletion pass must spare the outputs under way
+              dict(driver="sched", args=["--all", "--match", "flush_compact,manual@"], quick=1, thorough=6,
                    trace=CONC_TRACE, final_rc3=True)]),
     "C02": dict(
         design=[(DUR, ["MC_RainDur_small.cfg", "MC_RainDur_comp.cfg"],
